@@ -342,6 +342,10 @@ func TestVerifC35Webrtc(t *testing.T) {
 				"pm_calls": nd, "uuid_at": ua}, "webrtc-direct/"+class+"/"+oc, len(names) > 0 || status == 404 && m == "DELETE")
 	}
 
+	out.w.Flush()
+
+	// a panic behind the listener ends this process through handlerExitOnPanic: whatever the direct call of the
+	// same path shows to panic is recorded as such and not sent
 	wireFixed := []struct{ m, t string }{{"GET", "*"}, {"OPTIONS", "*"}, {"GET", "/"}, {"GET", "//"}, {"POST", "http://localhost"},
 		{"OPTIONS", "http://localhost/cam/whip"}, {"GET", "/%"}, {"OPTIONS", "/a%0Ab/whip"}, {"DELETE", "/a/whip/" + uuids[0]},
 		{"DELETE", "/a%2Fwhip%2F" + uuids[0]}, {"GET", "/%2Fpublish"}, {"GET", "/publish"}, {"OPTIONS", "/%00/whep"}}
@@ -360,6 +364,14 @@ func TestVerifC35Webrtc(t *testing.T) {
 				target = "/"
 			}
 			m = vPick(r, []string{"GET", "GET", "POST", "OPTIONS", "OPTIONS", "PATCH", "DELETE", "PUT"})
+		}
+		if u0, err0 := url.ParseRequestURI(target); err0 == nil && strings.HasPrefix(u0.Path, "/") && !strings.ContainsAny(target, " ") {
+			if _, _, pk := vC35Direct(router, m, u0.Path, "", nil); pk {
+				out.Case(cqApp("CWebrtc", "true", vC35Meth(m), vC35Q(u0.Path), "[]", "OPanic"),
+					map[string]any{"front": "webrtc", "mode": "wire (not sent: the handler panics on this path)", "method": m, "target": target, "path": u0.Path, "panic": true},
+					"webrtc-wire/"+class+"/panic", false)
+				continue
+			}
 		}
 		pm.take()
 		status := vC35Wire(addr, m, target)
